@@ -6,11 +6,13 @@
      reset                          start of an independent history
      call (g, op, e, m)             goroutine g is about to invoke op in
                                     {"register","unregister","notify","take"}
+                                    (take: e names the channel = the entry that allocated it)
      ret  (g [, ok])                the operation returned (take: ok = a token was received)
+     new  (g, e, c)                 g re-created its unregistered channel entry e on existing channel c
      cb   (g, e)                    logged from inside the callback of callback entry e,
                                     g = the goroutine running it (the notifier)
      obs  (calls, tokens)           quiescent observation: cumulative callback counts and
-                                    len(channel) per entry (no operation in flight)
+                                    len(channel) per channel (no operation in flight)
 
    Sequential histories are the special case of one goroutine.  For concurrent
    histories TLC places, for every call, an internal Lin(g) step between call
@@ -29,7 +31,7 @@ EXTENDS Waiter, TraceIO
 VARIABLES pend, owed, unregd
 G == 0..7
 None == [op |-> "none"]
-tvars == <<reg, token, calls, l, pend, owed, unregd>>
+tvars == <<reg, token, calls, chanOf, l, pend, owed, unregd>>
 
 Quiet == \A g \in G : pend[g] = None
 
@@ -41,8 +43,9 @@ TInit == /\ PInit /\ l = 1 /\ HWInit
 Reset == /\ IsEvent("reset")
          /\ Quiet
          /\ reg' = <<>>
-         /\ token' = [e \in ChEntries |-> 0]
+         /\ token' = [c \in Chans |-> 0]
          /\ calls' = [e \in CbEntries |-> 0]
+         /\ chanOf' = [e \in ChEntries |-> e]
          /\ owed' = [g \in G |-> {}]
          /\ unregd' = [e \in Entries |-> FALSE]
          /\ UNCHANGED pend
@@ -56,7 +59,14 @@ Call == /\ IsEvent("call")
                                            m |-> IF Ev.op \in {"register", "notify"} THEN SeqToSet(Ev.m) ELSE {},
                                            done |-> FALSE, ok |-> TRUE]]
         /\ unregd' = IF Ev.op = "register" THEN [unregd EXCEPT ![Ev.e] = FALSE] ELSE unregd
-        /\ UNCHANGED <<reg, token, calls, owed>>
+        /\ UNCHANGED <<reg, token, calls, chanOf, owed>>
+
+\* new (g, e, c): goroutine g (idle, owner of the unregistered channel entry e) re-created e on
+\* the existing channel c with NewChannelEntry(ch)
+New == /\ IsEvent("new")
+       /\ Ev.g \in G /\ pend[Ev.g] = None
+       /\ NewEntry(Ev.e, Ev.c)
+       /\ UNCHANGED <<pend, owed, unregd>>
 
 Lin(g) == /\ pend[g] # None /\ ~pend[g].done
           /\ LET c == pend[g] IN
@@ -64,7 +74,7 @@ Lin(g) == /\ pend[g] # None /\ ~pend[g].done
                /\ CASE c.op = "register"   -> Register(c.e, c.m) /\ ok = TRUE /\ UNCHANGED owed
                     [] c.op = "unregister" -> Unregister(c.e) /\ ok = TRUE /\ UNCHANGED owed
                     [] c.op = "notify"     -> /\ owed' = [owed EXCEPT ![g] = Hit(c.m)]
-                                              /\ ok = TRUE /\ UNCHANGED <<reg, token, calls>>
+                                              /\ ok = TRUE /\ UNCHANGED <<reg, token, calls, chanOf>>
                     [] c.op = "take"       -> Take(c.e, ok) /\ UNCHANGED owed
                /\ pend' = [pend EXCEPT ![g].done = TRUE, ![g].ok = ok]
           /\ UNCHANGED <<l, unregd>>
@@ -91,15 +101,15 @@ Ret == /\ IsEvent("ret")
        /\ (pend[Ev.g].op = "take") => (Has(Ev, "ok") /\ Ev.ok = pend[Ev.g].ok)
        /\ unregd' = IF pend[Ev.g].op = "unregister" THEN [unregd EXCEPT ![pend[Ev.g].e] = TRUE] ELSE unregd
        /\ pend' = [pend EXCEPT ![Ev.g] = None]
-       /\ UNCHANGED <<reg, token, calls, owed>>
+       /\ UNCHANGED <<reg, token, calls, chanOf, owed>>
 
 Obs == /\ IsEvent("obs")
        /\ Quiet
        /\ Has(Ev, "calls")  => \A e \in DOMAIN Ev.calls  : e \in CbEntries /\ calls[e] = Ev.calls[e]
-       /\ Has(Ev, "tokens") => \A e \in DOMAIN Ev.tokens : e \in ChEntries /\ token[e] = Ev.tokens[e]
-       /\ UNCHANGED <<reg, token, calls, pend, owed, unregd>>
+       /\ Has(Ev, "tokens") => \A c \in DOMAIN Ev.tokens : c \in Chans /\ token[c] = Ev.tokens[c]
+       /\ UNCHANGED <<reg, token, calls, chanOf, pend, owed, unregd>>
 
-TNext == \/ Reset \/ Call \/ Ret \/ Cb \/ Obs
+TNext == \/ Reset \/ Call \/ Ret \/ Cb \/ Obs \/ New
          \/ \E g \in G : Lin(g)
          \/ \E g \in G, e \in ChEntries : Fire(g, e)
 TSpec == TInit /\ [][TNext]_tvars
